@@ -9,6 +9,6 @@ PROBE = os.path.join(REL, 'cgprobe')
 COMPLGEN = os.path.join(REL, 'complgen')
 COMPLGEN_CHK = os.path.join(CHK, 'complgen')
 WORK = os.path.join(VERIF, 'work')
-EVIDENCE = os.path.join(VERIF, 'evidence')
+EVIDENCE = os.environ.get('VERIF_EVIDENCE_DIR') or os.path.join(VERIF, 'evidence')
 REPLAYS = os.path.join(VERIF, 'replays')
 KNOWN = os.path.join(VERIF, 'known_findings.json')
